@@ -610,6 +610,46 @@ def path_programs_c17():
 
 
 
+def abort_programs_c17():
+    """A call that is aborted inside the user's operator (its k-th product raises), then the same call again with the SAME
+    caller-owned algorithm object: algorithm class x entry point x structure with user operators as parts x position of the
+    abort.  The fault-free twin of the aborted call is the reference for the repeat (I-KEYED); whatever a routine parks on
+    the algorithm object, the operator or a module while it runs must be back in place when it is left by an exception."""
+    out = []
+
+    def pr(seed, pid, m=2):
+        return _p({"k": "probe", "inner": {"k": "generic", "n": m, "dtype": "f8", "seed": seed, "sym": "psd"}, "pid": pid})
+
+    structures = {
+        "probe": _p({"k": "probe", "inner": {"k": "generic", "n": 4, "dtype": "f8", "seed": 60, "sym": "psd"}, "pid": 0}),
+        "kron_probes": {"k": "kron", "args": [pr(61, 0), pr(62, 1)]},
+        "kronsum_probes": {"k": "kronsum", "args": [pr(63, 0), pr(64, 1)]},
+        "sum_probes": {"k": "sum", "args": [pr(65, 0, 4), pr(66, 1, 4)]},
+        "blockdiag_probes": {"k": "blockdiag", "args": [pr(67, 0), pr(68, 1)], "mult": [1, 1]},
+        "product_probes": {"k": "ann", "name": "PSD", "of": {"k": "product", "args": [pr(69, 0, 4), pr(69, 0, 4)]}},
+    }
+    for cname, (kw, r0, entries) in PATH_CLASSES.items():
+        cls = "Hutch" if cname.startswith("Hutch") else cname
+        for fn, argname, extra, randomised in entries:
+            if not randomised:
+                continue
+            for sname, rec in structures.items():
+                for at in (0, 1, 3):
+                    x = {"op": "call", "fn": fn, "args": dict({"A": {"slot": "AK"}, argname: {"algobj": "g"}}, **extra)}
+                    steps = [{"op": "make", "slot": "AK", "recipe": rec},
+                             {"op": "mkalg", "name": "g", "cls": cls, "kw": dict(kw, key=7)},
+                             dict(x, x={"cb": {str(at): ["raise"]}}), dict(x, repeat_of=2),
+                             {"op": "user", "act": ["draw", "randn", 2], "slot": "s0"}]
+                    for j, st in enumerate(steps):
+                        st["id"] = j
+                    name = "abort/%s/%s%s/%s/at=%d" % (cname, fn, "".join("_%s" % v for v in extra.values() if isinstance(v, (str, int))),
+                                                       sname, at)
+                    out.append({"name": name, "program": {"property": "C17", "run_seed": 0, "rng0": 3,
+                                                          "config": {"path": ["abort", cname, fn, sname, at]}, "mode": "explicit",
+                                                          "steps": steps}})
+    return out
+
+
 # ------------------------------------------------------------------------------------------
 # Large-draw programs (C17): keyed draws of >= 2**20 elements on cheap structured operators, compared across
 # process environments (PYTHONHASHSEED, simulated number of usable CPUs); also reaches the n > 100 block logic.
